@@ -638,6 +638,36 @@ func ruleC09For(p *Prog, a *Anchors, r *Report) {
 				own = append(own, cellOfCtx(base, nil))
 			}
 		}
+		// the record under "forloop" is made by this execution: a record kept anywhere else (the node, the node state of
+		// the rendering) is shared by the executions of the same tag that are under way at once — a macro that calls
+		// itself from inside its loop — and the inner one resets and advances what the outer one still reads
+		for _, b := range f.Blocks {
+			for _, in := range b.Instrs {
+				mu, ok := in.(*ssa.MapUpdate)
+				if !ok {
+					continue
+				}
+				kv := mu.Key
+				if mi, isMI := kv.(*ssa.MakeInterface); isMI {
+					kv = mi.X
+				}
+				if k, isK := constString(kv); !isK || k != "forloop" {
+					continue
+				}
+				val := mu.Value
+				if mi, isMI := val.(*ssa.MakeInterface); isMI {
+					val = mi.X
+				}
+				if n := structOf(val.Type()); n == nil || n.Obj().Name() != "tagForLoopInformation" {
+					continue
+				}
+				if allocatedHere(p, val, map[ssa.Value]bool{}) {
+					r.OK("own-record", p.InstrPos(in), "the loop record bound to forloop is allocated by this execution")
+				} else {
+					r.Bad("own-record", p.InstrPos(in), "the record bound to forloop (%s) is not one this execution allocated: kept per tag (in the node or the rendering's node state) it is shared by the executions of the same for tag that are under way at once — a macro that calls itself from inside its loop, as in tree rendering — and after the inner run forloop.Counter/Last of the outer one are the inner run's: `{%% if not forloop.Last %%},{%% endif %%}` loses its separators after the first node with children", p.VN(val))
+				}
+			}
+		}
 		emc, _ := args[2].(*ssa.MakeClosure)
 		var bad ssa.Instruction
 		found := false
@@ -768,6 +798,18 @@ func ruleC09LoopInfo(p *Prog, a *Anchors, r *Report) {
 	scan := withClosures(f)
 	for h := range helperIdx {
 		scan = append(scan, h)
+	}
+	// … and the functions Execute hands the making of the record to (`newLoopInfo(parent)`)
+	for _, cf := range clusterOf(p, f, 2) {
+		dup := false
+		for _, x := range scan {
+			if x == cf {
+				dup = true
+			}
+		}
+		if !dup {
+			scan = append(scan, cf)
+		}
 	}
 	for _, fn := range scan {
 		idx, count := idx, count
